@@ -6,12 +6,21 @@ forked child (an abort or hang inside a construction is a violation of its own a
 does not hide the other cases) and judges the returned cells with an oracle that
 only uses the generator positions and the box (planes from generator pairs, closure
 of the reported polyhedra, partition of the box, brute-force nearest generator,
-old == new).  Violation keys are <clause group>/<construction>/<generator family>:
-  crash/...         abort (cmac_error, SIGSEGV) or hang inside compute_grid / get_index
-  tessellation/...  volume > 0, sum of volumes, wall areas, face planes, closure,
-                    volume from faces, twin faces, midpoints, vertices inside the box
-  locate/...        get_index(x) != brute-force nearest generator
-  agree/old-vs-new/... volumes, centroids, neighbour sets of the two constructions
+old == new).
+
+Violation keys
+  random part:       <clause>/<construction>/<generator family>      (always a fresh violation)
+  pinned witness k:  pinned-<k>/<clause>/<construction>               (fixed generator sets, replayed in every run,
+                                                                      same keys whatever VERIF_SEED is)
+  clauses: abort hang abort-locate | volume-positive volume-sum wall-area inside duplicate-face wall-normal
+           vertex-finite vertex-in-box face-plane closure volume-faces partner partner-midpoint | locate |
+           agree-volume agree-centroid agree-neighbours (construction "old-vs-new")
+
+Input rules.  A regime that is diagnosed as broken in the code under test and not repaired is represented by its
+pinned witnesses (whose violations are the known findings) and is kept out of the RANDOM part by a rule on the
+generated input - never on the outcome.  A rule is active exactly while a finding it belongs to is listed as open
+in known_findings.jsonl (field "avoid" of the entry, or the table RULE_OF below): once a defect is repaired and its
+entries are closed, the random part covers the regime again.
 """
 import concurrent.futures as cf
 import os, sys
@@ -33,6 +42,39 @@ slowcap = 400 if quick else 1000       # every family but uniform / perturbed-la
 wallcap = 150 if quick else 300        # wall family: genuine hangs are frequent and each costs a full (quadratic) watchdog
 env = {"OMP_NUM_THREADS": "4"}         # worksize 1..4 is chosen per grid by the harness
 timeout = 3600 if quick else 6 * 3600  # watchdogs proper are CPU-time limits per construction inside the harness
+
+# ---- input rules of the random part -------------------------------------------------------------------------
+RULES = {
+    "A": "new construction only for boxes whose rescaled big-tetrahedron corners (NewVoronoiBox of the rescaled box, unrepaired "
+         "constructor arithmetic) lie inside [1,2): outside, ExactGeometricTests::get_mantissa is meaningless (defect A, witnesses pinned-0/3/4)",
+    "B": "every generator is at least 1e-5 x side away from every wall (wall family: 1e-5..1e-3 instead of 1e-12..1e-9): closer, the "
+         "mirror-generator circumcentres of the new construction lose eps*h*(h/distance) (defect B, witnesses pinned-1/6)",
+    "C": "no exact bcc lattice in a box with three equal sides for the new construction (defect C, witness pinned-2)",
+    "O": "old construction only if the smallest generator separation is >= c*sqrt(OLDVORONOI_TOLERANCE)*|box sides|, c = 20: the documented "
+         "vertex tolerance eps/|p| is then <= 1% of the half separation |p|; at c ~ 1 it exceeds |p|, whole cells lie 'in the plane' and "
+         "OldVoronoiCell::intersect runs off its edge lists (witnesses pinned-5/6)",
+    "D": "old construction only on lattices displaced by >= 10 delta (delta = 8*tol*|S|^2/nn, its allowed vertex displacement): a set that is "
+         "degenerate within the documented tolerance is a degenerate set for the old construction; exactly degenerate input is only "
+         "demanded of the new one (witnesses pinned-3/old, pinned-7)",
+}
+
+
+def rule_of(key, rec):
+    if rec.get("avoid"):
+        return rec["avoid"]
+    try:
+        pk, clause, ctor = key.split("/")
+        k = int(pk.split("-")[1])
+    except (ValueError, IndexError):
+        return ""
+    if ctor == "new":
+        return {0: "A", 1: "B", 2: "C", 3: "A", 4: "A", 6: "B"}.get(k, "")
+    if ctor == "old":
+        return {3: "D", 5: "O", 6: "O", 7: "D"}.get(k, "")
+    return ""
+
+
+avoid = "".join(sorted(set("".join(rule_of(k, r) for k, r in chk.known.items()))))
 
 stats, statd = {}, {}
 
@@ -58,7 +100,8 @@ def run_pinned(k):
 
 
 def run_main():
-    return hcheck.run_shards(chk, exe, ["--grids", str(grids), "--stride", str(shards), "--slowcap", str(slowcap), "--wallcap", str(wallcap)],
+    return hcheck.run_shards(chk, exe, ["--grids", str(grids), "--stride", str(shards), "--slowcap", str(slowcap), "--wallcap", str(wallcap)]
+                             + (["--avoid", avoid] if avoid else []),
                              shards, timeout, env=env)
 
 
@@ -70,7 +113,8 @@ def run_asan():
     chk2_seed = chk.seed
     chk.seed = chk2_seed + 7777  # different cases than the main pass
     try:
-        return hcheck.run_shards(chk, exe_asan, ["--grids", "12", "--stride", "16", "--slowcap", "300", "--wallcap", "100", "--cpufactor", "6"],
+        return hcheck.run_shards(chk, exe_asan, ["--grids", "12", "--stride", "16", "--slowcap", "300", "--wallcap", "100", "--cpufactor", "6"]
+                                 + (["--avoid", avoid] if avoid else []),
                                  16, timeout, env=e)
     finally:
         chk.seed = chk2_seed
@@ -99,7 +143,9 @@ chk.assumptions += [
     "negligible face: area <= 1e-10 x (box volume)^(2/3); such faces are exempt from the twin/plane clauses (stated in the property)",
     "accuracy class 1e-9 x cell size for positions, 1e-8 relative for areas, 1e-10 relative for the volume sum, plus a conditioning allowance "
     "16[q(1+h/d)+eps h (h/d)^2] for needle-shaped Delaunay tetrahedra of real generators (never for walls)",
-    "the old construction's documented vertex tolerance OLDVORONOI_TOLERANCE x |box sides|^2 is granted in the local face clauses only",
+    "the old construction is approximate by design: its documented vertex tolerance OLDVORONOI_TOLERANCE x |box sides|^2 allows a vertex "
+    "displacement delta_i = 8 tol |S|^2 / nn_i (nn_i: distance to the nearest generator); every clause of the old construction and the old-vs-new "
+    "agreement get the resulting allowance (dV <= delta S, d(sum V) <= sum delta_i S_i, dc <= delta S h / V, dA <= delta P); derivation in the harness",
     "exactly degenerate lattices are only required of the new (incremental) construction, as the property states",
     "sets of 1000..2000 generators are uniform or perturbed lattices; the other families are capped at %d (wall: %d) generators because the new construction needs O(n^2) time there; the per-construction CPU watchdog is >= 8x (linear) / 15x (quadratic) the measured normal cost" % (slowcap, wallcap),
 ]
@@ -113,5 +159,9 @@ need = {"grids_threaded": stats.get("grids_threaded"), "grids_serial": stats.get
 for fam in FAMILIES:
     need["family_" + fam.replace("-", "_")] = stats.get("family_" + fam)
     need["built_new_" + fam.replace("-", "_")] = stats.get("grids_built_new_" + fam)
+cov["input_rules_active"] = {r: RULES[r] for r in avoid}
+cov["input_rule_skips"] = {k: v for k, v in stats.items() if k.startswith("rule_") or k.startswith("cases_skipped")}
+for r in "ABCOD":
+    chk.assumptions.append("input rule %s (%s in the random part): %s" % (r, "ACTIVE" if r in avoid else "not active: no open finding refers to it", RULES[r]))
 chk.require_nonzero(**need)
 chk.finish()
